@@ -83,11 +83,27 @@ def spline_cases(ctx):
                                 x = torch.full((n,), (lo + hi) / 2, dtype=dt)
                                 x[pos] = v
                                 out.append((fam, tails, prec, mag, inverse, kind, pos, x, box, K))
+    # bounded splines on boxes that do not contain zero (entirely negative, entirely positive) and the unit box: a margin that is
+    # RELATIVE to the last knot, or a comparison mixed between precisions, shows at end-points that are negative or not dyadic
+    for fam in S.FAMS:
+        for prec in ('f64', 'f32'):
+            dt = _dtype(prec)
+            for box in ((-3.0, -1.0, -2.0, -0.5), (-0.7, -0.1, -10.1, -0.3), (2.0, 5.0, 1.0, 1.5), (0.0, 1.0, 0.0, 1.0), (-1e3, 0.0, -1.0, 0.0)):
+                for inverse in (False, True):
+                    lo, hi = (box[2], box[3]) if inverse else (box[0], box[1])
+                    for b, inside_dir in ((lo, +1), (hi, -1)):
+                        bt = torch.tensor(b, dtype=dt)
+                        for kind, v in (('on', bt), ('in1', torch.nextafter(bt, torch.tensor(inf * inside_dir, dtype=dt))),
+                                        ('out1', torch.nextafter(bt, torch.tensor(-inf * inside_dir, dtype=dt)))):
+                            x = torch.full((3,), (lo + hi) / 2, dtype=dt)
+                            x[1] = v
+                            out.append((fam, False, prec, box[1], inverse, kind, 1, x, box, 4))
     return out
 
 
 def correspondence(ctx):
     """thorough tier: several independent generator seeds (the quick tier runs one)"""
+    coupling_identity_outside(ctx)
     for rep in range(1 if ctx.quick() else 6):
         _correspondence_once(ctx, rep)
         if ctx.elapsed() > 1500:
@@ -135,6 +151,44 @@ def _correspondence_once(ctx, rep=0):
                 ctx.disagree('C17/' + op, case, 'finite=%s' % fin_i, 'finite=%s' % fin_m, 'finiteness differs')
 
 
+def coupling_identity_outside(ctx, report=None):
+    """a bounded piecewise coupling / autoregressive layer restricts its TRANSFORMED features to the spline's interval; the identity
+    (pass-through) features of a coupling layer are not transformed and carry no restriction.  Identity features far outside [0, 1]
+    with transformed features inside: accepted, finite, identity unchanged; a transformed feature outside: InputOutsideDomain"""
+    import nflows.transforms as T
+    g = torch.Generator().manual_seed(ctx.seed + 1771)
+    cps = {'lin': T.PiecewiseLinearCouplingTransform, 'quad': T.PiecewiseQuadraticCouplingTransform,
+           'cubic': T.PiecewiseCubicCouplingTransform, 'rq': T.PiecewiseRationalQuadraticCouplingTransform}
+    for fam, cls in cps.items():
+        for mask in ([1, 0, 1], [0, 1, 0, 0]):
+            torch.manual_seed(ctx.seed + 3)
+            t = cls(mask, R.net_fn('res', None), num_bins=4, tails=None).double().eval()
+            R.perturb(t, 'normal', g)
+            ident = [i for i, m in enumerate(mask) if m <= 0]
+            trans = [i for i, m in enumerate(mask) if m > 0]
+            for inverse in (False, True):
+                x = 0.05 + 0.9 * torch.rand(3, len(mask), generator=g, dtype=torch.float64)
+                x[:, ident] = torch.tensor([3.7, -2.0, 1.0000001], dtype=torch.float64)[:, None]
+                k, y, ld = R.impl_call(t, x, None, inverse)
+                why = None
+                if k != 'ok':
+                    why = 'an input whose transformed features are inside [0, 1] is rejected (%s) because an identity feature lies outside' % k
+                elif not (torch.isfinite(y).all() and torch.isfinite(ld).all() and torch.equal(y[:, ident], x[:, ident])):
+                    why = 'non-finite result / identity features changed'
+                x2 = x.clone(); x2[1, trans[0]] = 1.5
+                k2, _, _ = R.impl_call(t, x2, None, inverse)
+                if why is None and k2 != 'InputOutsideDomain':
+                    why = 'a transformed feature outside [0, 1] is not rejected (%s)' % k2
+                case = {'class': cls.__name__, 'mask': mask, 'inverse': inverse, 'x': x.reshape(-1).tolist()}
+                if report is None:
+                    ctx.case(key=('coupling-identity-outside', fam, tuple(mask), inverse), branch='coupling/identity-outside', nontrivial=True, n=int(x.numel()))
+                    if why:
+                        ctx.disagree('C17/coupling', case, why, 'accepted: only transformed features are restricted', why)
+                elif why:
+                    report('%s(mask %s, tails=None), %s: %s' % (cls.__name__, mask, 'inverse' if inverse else 'forward', why), case,
+                           {'class': cls.__name__, 'symptom': 'identity-feature-domain'})
+
+
 def search(ctx):
     """direct oracle: outside the domain -> InputOutsideDomain, inside -> finite values"""
     gen = torch.Generator().manual_seed(ctx.seed + 1717)
@@ -170,6 +224,7 @@ def search(ctx):
         if len(ctx.failing) > 10:
             break
     degenerate_configs(ctx)
+    coupling_identity_outside(ctx, report=lambda what, case, match: ctx.fail(what, case, match=match))
 
 
 def degenerate_configs(ctx):
